@@ -19,7 +19,7 @@ PROPS = {
     "C01": {"theorems": ["C01_eval_is_reference", "C01_token_entry_point", "C01_exact_when_flags_are_sound", "C01_free_terms", "C01_any_flat_expression_is_precedence"], "axioms": [],
             "modes": [{"name": "c01", "quick_n": 1500, "thorough_n": 12000, "shard": 120}]},
     "C02": {"theorems": ["C02_folding_is_invisible", "C02_refolding_is_invisible", "C02_parse_vs_parse_wo_compile", "C02_folded_parse_is_reference", "C02_deep_folding_is_invisible", "C02_deep_parse_is_reference"], "modes": [{"name": "c02", "quick_n": 500, "thorough_n": 4000, "shard": 120}]},
-    "C03": {"theorems": ["C03_deep_parse_is_reference", "C03_deep_token_entry_point", "C03_flat_and_deep_agree", "C03_deep_eval_is_denotation", "C03_flat_to_deep", "C03_deep_to_flat", "C03_any_number_of_round_trips", "C03_every_parsed_flat_expression_converts"], "modes": [{"name": "c03", "quick_n": 500, "thorough_n": 4000, "shard": 150}]},
+    "C03": {"theorems": ["C03_deep_parse_is_reference", "C03_deep_token_entry_point", "C03_flat_and_deep_agree", "C03_deep_eval_is_denotation", "C03_flat_to_deep", "C03_deep_to_flat", "C03_any_number_of_round_trips", "C03_every_parsed_flat_expression_converts", "C03_listings_sorted_duplicate_free", "C03_listings_are_the_operators_of_the_expression", "C03_deep_to_flat_keeps_the_listings", "C03_unfolded_parse_lists_the_operators_of_the_text", "C03_folding_only_removes_names_partial"], "modes": [{"name": "c03", "quick_n": 500, "thorough_n": 4000, "shard": 150}]},
     "C04": {"theorems": ["C04_vars_sorted_distinct_complete", "C04_binding_is_position", "C04_every_variable_has_an_index", "C04_arity_flat", "C04_arity_flat_relaxed", "C04_arity_deep", "C04_relaxed_ignores_surplus"], "modes": [{"name": "c04", "quick_n": 250, "thorough_n": 2000, "shard": 25}]},
     "C07": {"theorems": ["C07_unbalanced_rejected", "C07_empty_rejected", "C07_trailing_operator_rejected", "C07_bad_pair_rejected", "C07_operand_count"], "modes": [{"name": "c07", "quick_n": 250, "thorough_n": 2500, "shard": 250}]},
     "C08": {"theorems": ["C08_tokenizer_is_lexer_then_rewrite", "C08_call_form_is_infix_at_any_nesting", "C08_same_tokens_as_infix_text"], "modes": [{"name": "c08", "quick_n": 800, "thorough_n": 6000, "shard": 120}]},
